@@ -306,6 +306,11 @@ def _case(ctx, index, G, uni, table):
             if (j == 2 and kind != 'zero' and rng.random() < 0.25) or rng.random() < 0.03:
                 rho = rng.choice([0.0, 0.0, 0])
             wts = _weights(rng, nm, kind)
+            if kind == 'ints' and rng.random() < 0.35:
+                # whole-number amounts of a large sample (an integer weight array): billions of formula units, so that
+                # the cell holds far more than 2**31.5 atoms - integer arithmetic inside the calculator must not wrap
+                f = rng.choice([10 ** 6, 10 ** 8, 3 * 10 ** 9, 10 ** 10, 10 ** 12])
+                wts = [x * f for x in wts]
             if kind != 'ints' and rng.random() < 0.25:
                 # the same proportions as absolute amounts of a very small / very large sample: only an exactly
                 # zero total weight is a vacuum
@@ -635,6 +640,8 @@ def _run_block(ctx, case, mats, w, sig, extra):
 
 def _count_extremes(ctx, weights, rho):
     top = max(weights)
+    if top >= 3e9 and all(float(x).is_integer() for x in weights):
+        ctx.count('extreme.integer_weights_above_3e9')
     if 0 < top < 1e-8:
         ctx.count('extreme.all_weights_below_1e-8')
     if top > 1e9:
@@ -942,6 +949,7 @@ def finish(ctx):
     ctx.require('lists', 3000 if not ctx.thorough() else 40000, 'fewer material lists than the floor of the tier')
     ctx.require('extreme.all_weights_below_1e-8', 20, 'no weight vector of tiny absolute amounts')
     ctx.require('extreme.weights_above_1e9', 20, 'no weight vector of huge absolute amounts')
+    ctx.require('extreme.integer_weights_above_3e9', 1, 'no integer weight vector of billions of formula units')
     ctx.require('extreme.density_below_1e-8', 20, 'no tiny non-zero density')
     ctx.require('history.stages', 1000, 'too few calculators built from reused material objects')
     ctx.require('history.derived_from_used_object', 500, 'too few materials derived from objects already used in a calculator')
